@@ -84,8 +84,16 @@ def scenario(rng, idx):
 
 def cases(tier, seed, shard, nshards):
     rng = rng_for(ID, seed, shard)
+    if tier == "thorough" or shard < 3:
+        for _b in range(1 if tier == "quick" else 2):
+            yield _exec.busy_case(rng, 4500 if tier == "quick" else 9000, p_suspend=0.25)
     for i in range(N_SCEN[tier]):
         yield scenario(rng, i)
+    # long history: thousands of steps with suspensions in one executor
+    for i in range((1 if shard < 6 else 0) if tier == "quick" else 6):
+        yield _exec.mix_case(rng, 10 ** 6 + i, steps=5000 if tier == "quick" else 9000, p_bad=0.0, p_suspend=0.7, mem_heavy=False,
+                             p_unready=0.0, multi=True, tps=rng.choice([20, 100, 1000]), maxn=4, nops=rng.choice([3, 4, 5]),
+                             npipes=1200, drain=2000, pools=1)
     for i in range(N_MIX[tier]):
         yield _exec.mix_case(rng, i, steps=rng.choice([40, 80]), p_bad=rng.choice([0.02, 0.05]),
                              bad_kinds=["suspend-mid", "suspend-unknown", "suspend-wrong-pool", "suspend-mid"],
